@@ -1,6 +1,7 @@
 package main
 
 import (
+	"math/big"
 	"os"
 	"strconv"
 	"errors"
@@ -304,6 +305,13 @@ func runSearch(m map[string]any) Result {
 		if !sameOutcome(c.out, c2.out) && !admits(adm, c2.out) {
 			return fail("differs", c2.out, "Expression.Search gave "+c2.out.show()+" but Search gave "+c.out.show())
 		}
+		// ... and stays the same function however it was used in between (C06,
+		// C18): evaluate it on a perturbed document (every leaf changed, one
+		// more member in every object), then on the original again; neither
+		// the earlier result nor the outcome may change
+		if r := reuseCheck(e, doc, b.carriers, adm, c2); r != nil {
+			return *r
+		}
 	}
 	res.GotS = c.out.show()
 	// determinism (C15): repeated evaluation on independently rebuilt documents
@@ -510,4 +518,66 @@ func runPair(m map[string]any) Result {
 		return fail("differs", c2.out, "the two expressions disagree: "+c1.out.show()+" vs "+c2.out.show())
 	}
 	return Result{OK: true, Pinned: pin || strict, GotS: c1.out.show()}
+}
+
+// perturb returns a document of the same shape with every leaf changed and an
+// extra member in every object.
+func perturb(v *TV) *TV {
+	switch v.T {
+	case "bool":
+		return &TV{T: "bool", B: !v.B}
+	case "num":
+		return &TV{T: "num", N: new(big.Int).Add(v.N, big.NewInt(1)), E: v.E}
+	case "str":
+		return &TV{T: "str", S: v.S + "~"}
+	case "arr":
+		out := &TV{T: "arr", A: make([]*TV, len(v.A))}
+		for i, x := range v.A {
+			out.A[i] = perturb(x)
+		}
+		return out
+	case "obj":
+		out := &TV{T: "obj", O: make([]Mem, 0, len(v.O)+1)}
+		seen := false
+		for _, m := range v.O {
+			out.O = append(out.O, Mem{m.K, perturb(m.V)})
+			seen = seen || m.K == "zz~"
+		}
+		if !seen {
+			out.O = append(out.O, Mem{"zz~", &TV{T: "num", N: big.NewInt(0)}})
+		}
+		return out
+	}
+	return v
+}
+
+func reuseCheck(e *jmespath.Expression, doc *TV, carriers []string, adm []*TV, first call) *Result {
+	var snap *TV
+	if first.out.T != "err" {
+		snap = fromGo(first.raw)
+	}
+	ba := &builder{}
+	if ca := doExprSearch(e, ba.build(perturb(doc))); ca.panicked {
+		r := fail("panic", ca.out, "on a perturbed copy of the document: "+ca.stack)
+		r.Site = ca.site
+		return &r
+	}
+	if snap != nil {
+		if after := fromGo(first.raw); !strictEq(snap, after) {
+			r := fail("mutation", after, "the result of an earlier Expression.Search changed when the expression was used on another document: was "+snap.show()+" now "+after.show())
+			return &r
+		}
+	}
+	bb := &builder{carriers: carriers}
+	cb := doExprSearch(e, bb.build(doc))
+	if cb.panicked {
+		r := fail("panic", cb.out, cb.stack)
+		r.Site = cb.site
+		return &r
+	}
+	if !sameUpTo(adm, first.out, cb.out) {
+		r := fail("differs", cb.out, "a compiled expression changed its outcome after being used on another document: first "+first.out.show()+", afterwards "+cb.out.show())
+		return &r
+	}
+	return nil
 }
